@@ -517,6 +517,59 @@ impl Sweep for Replies {
     }
 }
 
+/// Every built-in function with every tuple of boundary arguments (numbers at
+/// the 8/16/21-bit and float limits, the UTF-16 surrogate range, strings).
+struct FnArgs;
+
+const FN_NAMES: [&str; 30] = [
+    "ABS", "ASC", "ATN", "CDBL", "CHR$", "CINT", "COS", "CSNG", "EXP", "FIX", "HEX$", "INSTR", "INT", "LEFT$", "LEN", "LOG", "MID$", "OCT$", "POS", "RIGHT$", "RND", "SGN", "SIN", "SPC", "SQR",
+    "STR$", "STRING$", "TAB", "TAN", "VAL",
+];
+const FN_ARGS: [&str; 23] = [
+    "-1", "0", "1", "255", "256", "32767", "32768", "-32769", "55295", "55296", "57343", "57344", "65535", "65536", "1114111", "1114112", "1E38", "-1E38", "1D308", "0.5", "\"\"", "\"a\"", "\"é日\"",
+];
+
+impl Sweep for FnArgs {
+    fn name(&self) -> String {
+        "functions-x-boundary-arguments".into()
+    }
+    fn shards(&self) -> usize {
+        FN_NAMES.len()
+    }
+    fn crash_is_verdict(&self) -> bool {
+        true
+    }
+    fn run_shard(&self, shard: usize, ctx: &mut Ctx) {
+        let f = FN_NAMES[shard];
+        let mut calls: Vec<String> = vec![format!("{}()", f)];
+        for a in FN_ARGS {
+            calls.push(format!("{}({})", f, a));
+            for b in FN_ARGS {
+                calls.push(format!("{}({},{})", f, a, b));
+                if f == "MID$" || f == "INSTR" {
+                    for c in FN_ARGS {
+                        calls.push(format!("{}({},{},{})", f, a, b, c));
+                    }
+                }
+            }
+        }
+        for c in calls {
+            let direct = format!("PRINT {};", c);
+            let stored = format!("10 X$=\"\"+STR$(LEN(\"\"+{}))", c);
+            for lines in [vec![direct.as_str()], vec![stored.as_str(), "RUN"]] {
+                if !ctx.begin(&format!("{:?}", lines)) {
+                    continue;
+                }
+                if let Err((sig, detail)) = survive(&lines) {
+                    ctx.violation(&sig, detail);
+                }
+            }
+        }
+        ctx.nontrivial(hash64(&shard));
+        ctx.sample();
+    }
+}
+
 /// TAB, SPC, the comma zones and POS at every interesting column of a long
 /// output line (up to 1000 characters without a newline)
 struct Columns;
@@ -907,7 +960,7 @@ impl Check for C03 {
         let v: Vec<Box<dyn Sweep>> = vec![
             Box::new(Shapes),
             Box::new(Strings { n: tier.pick(4, 5), alpha: SIGMA.to_vec(), label: "sigma" }),
-            Box::new(Strings { n: tier.pick(5, 7), alpha: sub_alphabet(), label: "numeric-core" }),
+            Box::new(Strings { n: tier.pick(5, 6), alpha: sub_alphabet(), label: "numeric-core" }),
             // blanks that are not ASCII: no-break space, ideographic space, em space, line separator
             Box::new(Strings { n: tier.pick(4, 5), alpha: vec!["\u{a0}", "\u{3000}", "\u{2003}", "\u{2028}", " ", "\t", "1", "A", "\"", ":", "?"], label: "unicode-blanks" }),
             Box::new(TokenSeqs { k: tier.pick(2, 3) }),
@@ -915,6 +968,7 @@ impl Check for C03 {
             Box::new(Sessions { all: tier == Tier::Thorough }),
             Box::new(Replies { n: tier.pick(4, 5) }),
             Box::new(Columns),
+            Box::new(FnArgs),
             Box::new(SpaceSweep { model: protocol(tier.pick(6, 8)) }),
             Box::new(SpaceSweep { model: protocol_from(tier.pick(6, 8), true) }),
         ];
@@ -924,7 +978,7 @@ impl Check for C03 {
         Meta {
             bound: match tier {
                 Tier::Quick => "every string of length <=4 over the 41-symbol lexical alphabet and of length <=5 over its 20-symbol numeric core, every sequence of <=2 tokens from 105 tokens, every single-token mutant (delete, swap, replace by / insert each of the 105 tokens) of a 47-line corpus, 31 nesting / repetition shapes at lengths around 255 and the 1024-byte limit (also as INPUT replies and INKEY$ keys) - each as a direct line, a stored line, and a stored line followed by RUN; two stored corpus lines followed by each of 23 commands and a follow-up command; every reply of <=4 symbols over {a, é, 日, comma, quote, blank, 1, -, ., &} to 5 INPUT statements with 1..3 variables and as an INKEY$ key; TAB / SPC / comma / POS at 24 columns 0..1024 of an unterminated output line (1- and 2-byte characters, 37 operations, direct and stored); and the UI protocol state machine (21 lines, replies, keys, execute(1|7|5000|until it asks), interrupt - also while a key or a reply is awaited -, snapshot take/drop, load ok/fail) to depth 6 from the empty interpreter and from a stored program".into(),
-                Tier::Thorough => "as quick with strings to length 5 (full alphabet) / 7 (numeric core), token sequences to length 3, pairs of mutations on corpus lines of <=14 tokens, every follow-up command in the stored-line sessions, replies to length 5, protocol depth 8".into(),
+                Tier::Thorough => "as quick with strings to length 5 (full alphabet) / 6 (numeric core; length 7 is 3.8e9 sessions, about five hours here, and was not kept in the tier), token sequences to length 3, pairs of mutations on corpus lines of <=14 tokens, every follow-up command in the stored-line sessions, replies to length 5, protocol depth 8".into(),
             },
             rule: "a case is one entered text in one of three modes (or one protocol transition); verdict: no panic, every call returns (watchdog), and afterwards - after at most one interrupt - PRINT 1 prints ' 1 '; distinct_nontrivial counts shards / protocol states".into(),
             states_note: "states = distinct (full-state digest, protocol wait state, live snapshots) of the protocol search; transitions = protocol actions executed plus entered texts".into(),
